@@ -169,6 +169,11 @@ fn fresh_case<G: CurveTag>(bytes: &[u8], col: &mut Collector, large: bool) -> Re
         return Ok(());
     };
     let cur_coms: Vec<Vec<u8>> = p.commitments.iter().map(enc).collect();
+    if !bad && !p.model.satisfied() {
+        // the generator is satisfiable-by-construction; a miss is counted, never judged
+        col.class("generator-unsat");
+        return Ok(());
+    }
     let rv = ref_verify::<G>(&prog, &cur_coms, cur_bytes, need, false);
     // reference prover -> current verifier
     let (ref_bytes, ref_coms) = ref_prove::<G>(&prog, need).map_err(|e| Failure::new("machinery:ref-prover", format!("reference prover failed: {}", e), pj(e.clone())))?;
